@@ -3,6 +3,9 @@
    (driver harness/cmd/orderedstore) are consumed line by line; each line must be an enabled
    action of OrderedStore with exactly the logged arguments and the logged result, and must lead
    to a state that agrees with what the driver observed after the call:
+     sane     the driver's own in-order walk of the node repository found the structure sound: parent ids match,
+              counts within the slot length, no empty non-root node, no item with nil id or value, keys in order,
+              and the call did not change the relative order of the items that were stored before it
      cnt      Count()
      ck, cid  GetCurrentKey() (key, normalised item id)            - black box
      tc       item id at currentItemRef (0 nil, -1 vacated slot, -2 not observed) - white box (reflection, read only)
@@ -48,7 +51,8 @@ Rng(s) == {s[i] : i \in 1..Len(s)}
 A1 == IF E.aff = <<-2>> THEN -2 ELSE IF Len(E.aff) = 1 THEN E.aff[1] ELSE -3
 
 \* the post-state agrees with what the driver observed after the call (contents: see TObserve)
-Post == /\ Len(items') = E.cnt
+Post == /\ E.sane = TRUE
+        /\ Len(items') = E.cnt
         /\ (E.tc # -2 => TrueCur' = E.tc)
         /\ CurView' = <<E.ck, E.cid>>
         /\ (E.aff # <<-2>> => (Rng(E.aff) = {}) = (items' = items))
